@@ -7,9 +7,10 @@ CONSTANTS
   NewLists <- MCNewLists
   DelKeys <- MCDelKeys
   Hdrs <- MCHdrs
+  Ops <- MCOps
   MaxSteps = @MAXSTEPS@
 VIEW View
 ACTION_CONSTRAINT EmitEdge
 INVARIANT Inv
-PROPERTIES Immutable
+PROPERTIES Immutable SetHolds DeleteHolds
 CHECK_DEADLOCK FALSE
